@@ -314,15 +314,19 @@ func compareFlat(want *fstree.Node, recs []rec, format string, skipRootMeta, sha
 			}
 		}
 		if r.path != e.Path {
-			f := "path"
-			if sp := strings.IndexByte(e.Path, ' '); format == "mtree" && sp >= 0 && strings.HasPrefix(e.Path, r.path) {
-				f = "path-space"
+			if format == "mtree" && strings.IndexByte(e.Path, ' ') >= 0 {
+				// an unescaped blank splits the line: the words that follow cannot be trusted either
+				add("path-space", "record %d: want %q got %q", i, e.Path, r.path)
+				continue
 			}
-			add(f, "record %d: want %q got %q", i, e.Path, r.path)
+			add("path", "record %d: want %q got %q", i, e.Path, r.path)
 		}
 		if r.typ != n.Kind {
 			add("type", "want %s got %s", n.Kind, r.typ)
-			continue
+			dev := func(k string) bool { return k == fstree.Chr || k == fstree.Blk }
+			if !(dev(r.typ) && dev(n.Kind)) {
+				continue
+			}
 		}
 		meta := !(e.Root && skipRootMeta)
 		if meta {
